@@ -134,6 +134,7 @@ def _disk_case(desc, ctx):
     ctx.cls("interior:" + ("none" if not interior else "some"))
     if len(interior) >= 5 and (nb % 4 != 0 or chords):
         ctx.nontrivial(stable_hash([len(V), F, mode, cotan, desc["corners"]]))
+    degenerate_positions = False
     if desc["seed"] % 5 == 2:
         # whole-number vertex coordinates of some size (a scanned / voxel-derived mesh): stored as Python ints or as an integer array
         fac = rng.choice([300.0, 1.0e5, 3.0e6])
@@ -152,6 +153,20 @@ def _disk_case(desc, ctx):
             ok, m = ctx.call("build", build.surface, [[int(x) for x in p] for p in V], F, monitor="border")
         else:
             ok, m = ctx.call("from_arrays", _M.mesh.from_arrays, np.asarray(V).astype(rng.choice(["int64", "int32"]) if np.abs(V).max() < 2e9 else "int64"), F=np.array(F), monitor="border")
+    elif not cotan and desc["seed"] % 5 == 4:
+        # uniform weights use the combinatorics only ("with uniform weights always"): the same triangulation with degenerate positions - every
+        # vertex at one point, or a few collapsed edges - must embed exactly like the well-shaped one
+        V = np.array(V, float)
+        if rng.random() < 0.5:
+            V[:] = V[0]
+            degenerate_positions = True
+            ctx.cls("coordinates:all_vertices_at_one_point")
+        else:
+            for (p_, q_) in rng.sample(sorted(ref.edges), min(len(ref.edges), rng.randint(1, 3))):
+                V[q_] = V[p_]
+            degenerate_positions = True
+            ctx.cls("coordinates:some_edges_collapsed")
+        ok, m = ctx.call("build", build.surface, V, F, monitor="border")
     else:
         ok, m = ctx.call("build", build.surface, V, F, monitor="border")
     kwargs = {"save_on_corners": desc["corners"]}
@@ -186,7 +201,7 @@ def _disk_case(desc, ctx):
         if rng.random() < 0.3:
             kwargs["custom_boundary"] = None  # the documented default given explicitly (what a wrapper forwarding every option does)
             ctx.cls("custom_boundary:explicit_None")
-    if rng.random() < 0.5:
+    if rng.random() < 0.5 and not degenerate_positions:  # (cotangent weights are not defined on collapsed triangles)
         # history: the same mesh object was embedded before with the other weighting (and other storage); the second run must not inherit anything
         ctx.cls("history:embedded_before_with_other_weights")
         kw0 = dict(kwargs)
